@@ -245,13 +245,21 @@ def rule_sentinel(ctx: Ctx) -> None:
     raises = [n for n in C.walk_shallow(chk.node) if isinstance(n, ast.Raise)]
     ctx.require(len(raises) == 1 and isinstance(raises[0].parent, ast.If),  # type: ignore[attr-defined]
                 "C10.3: _check_margin_level is not 'if <guard>: raise' (unrecognised idiom)")
-    guard = raises[0].parent.test  # type: ignore[attr-defined]
+    raise_guard = raises[0].parent.test  # type: ignore[attr-defined]
     var = None
     for s in A.stores(chk):
         if isinstance(s.target, ast.Name) and isinstance(s.node, ast.Assign) and isinstance(s.node.value, ast.Call) \
                 and (A.call_name(s.node.value) or "").endswith("._calculate_margin_level"):
             var = s.target.id
-    ctx.require(var is not None and _only_var(guard, var), "C10.3: guard is not a predicate over the computed margin level only")
+    ctx.require(var is not None and _only_var(raise_guard, var), "C10.3: guard is not a predicate over the computed margin level only")
+    # early 'if <test over the level>: return' statements before the raise are part of the guard: the request is refused iff
+    # none of them fires and the raise guard holds
+    pre = [n.test for n in C.walk_shallow(chk.node) if isinstance(n, ast.If) and n is not raises[0].parent  # type: ignore
+           and n.lineno < raises[0].lineno and _only_var(n.test, var) and any(isinstance(b, ast.Return) for b in n.body)]
+    guard = raise_guard
+    for t in reversed(pre):
+        guard = ast.BoolOp(op=ast.And(), values=[ast.UnaryOp(op=ast.Not(), operand=t), guard])
+    ast.fix_missing_locations(guard)
     exc = raises[0].exc
     excname = (A.dotted(exc.func) if isinstance(exc, ast.Call) else A.dotted(exc)) or ""
     ctx.check(excname.endswith("NotEnoughBalance"), "C10.3", "refusal is reported as NotEnoughBalance", chk, raises[0],
@@ -309,6 +317,11 @@ def rule_early_exit(ctx: Ctx) -> None:
             ctx.require(False, f"C10.5: early return at line {n.lineno} of _check_margin_level uses an idiom the rule does "
                                "not recognise (cannot tell whether a borrowing update can skip the margin check)")
         ctx.sample({"rule": "C10.5", "early_exit": ast.unparse(n.test), "truth_table": tbl})
+        if ent.get("quantifier") == "any":
+            ctx.bad("C10.5", "no update that increases a borrowed balance skips the margin check", fn, n.test,
+                    "the early exit is taken as soon as ANY borrowed amount does not grow: an update that borrows one symbol "
+                    "while another stays put skips the margin check")
+            continue
         ctx.check(tbl["new>old"] is False, "C10.5", "no update that increases a borrowed balance skips the margin check", fn,
                   n.test, f"early exit only when no borrowed amount grows {tbl}",
                   f"the early exit is taken when a borrowed amount grows ({tbl}): a loan is granted without the margin check")
